@@ -1405,6 +1405,7 @@ fn crash_part(prop: &str, a: &Args, oracle: crate::engines::crash::CrashOracle, 
             let mut s = CrashSpec::new(&format!("{prop}/crash/{name}/{mode:?}"), *mode, h.clone());
             s.wcfg.max_data_in_blob = max_data;
             s.fine_limit = fine_limit;
+            s.second_level_parents = if thorough { 150 } else { 10 };
             specs.push(s);
         }
     }
@@ -1440,7 +1441,7 @@ fn crash_part(prop: &str, a: &Args, oracle: crate::engines::crash::CrashOracle, 
             "evaluations": r.stats.recoveries,
             "distinct_nontrivial": r.stats.distinct_states,
             "oracle": format!("{oracle:?}"),
-            "rule": "per history: the ordered log of create/write/sync/truncate/rename events is recorded from the real code; crash after every event; kill = all issued bytes present (large in-flight writes also cut at 4 KiB boundaries); power loss = per file, un-synced bytes lost from every enumerated byte on (every byte for regions up to fine_limit, both ends of every write and page boundaries beyond), tail absent or zero-filled, un-synced writes dropped as subsets, index-header rewrite applied or not, other files all-present or durable-only; each distinct state recovered with init under validate_data on/off x ignore_corrupted on/off; distinct_nontrivial = distinct crash states",
+            "rule": "per history: the ordered log of create/write/sync/truncate/rename events is recorded from the real code; crash after every event; kill = all issued bytes present (large in-flight writes also cut at 4 KiB boundaries); power loss = per file, un-synced bytes lost from every enumerated byte on (every byte for regions up to fine_limit, both ends of every write and page boundaries beyond), tail absent or zero-filled, un-synced writes dropped as subsets, index-header rewrite applied or not, other files all-present or durable-only; each distinct state recovered with init under validate_data on/off x ignore_corrupted on/off; second level: the recovery (init + background work, quarantine mode, validation off and on) from selected first-level states (all kill states first, then evenly spread power-loss states, up to a cap per history) is recorded and killed after each of its file operations, the resulting state recovered and judged by the same oracle; distinct_nontrivial = distinct crash states",
             "samples": r.stats.samples,
             "exhaustive": true,
             "histories": r.stats.histories,
@@ -1448,6 +1449,7 @@ fn crash_part(prop: &str, a: &Args, oracle: crate::engines::crash::CrashOracle, 
             "crash_points": r.stats.crash_points,
             "kill_states": r.stats.kill_states,
             "power_loss_states": r.stats.power_loss_states,
+            "second_level_states": r.stats.second_level_states,
             "violations_total": r.stats.violations,
             "violations_by_kind": r.stats.violations_by_kind,
         }),
